@@ -216,6 +216,15 @@ def startsPosKw : List Tok' → Bool
   | ⟨.ident, v⟩ :: _ => (posKwName v).isSome
   | _ => false
 
+/-- does the token sequence start like a call: an identifier directly followed by `(`?  Inside `[…]` this is the
+configuration in which `parseIndexSpecifier` reads a position keyword.  No yield of the fragment starts like that
+(calls are outside it): theorem `yield_not_call` (MF/Proofs/ExprBasic.lean) — which is why `NF` needs no side
+condition on the expression of a plain subscript: `a[offset]`, `a[ordinal * 2]`, `a[offset.f]` are plain subscripts
+whose expression starts with the column `offset` / `ordinal`. -/
+def startsCall : List Tok' → Bool
+  | a :: b :: _ => a.k == .ident && b.k == .lparen
+  | _ => false
+
 def isIdentOrPath : Expr → Bool
   | .ident _ | .path _ => true
   | _ => false
@@ -231,8 +240,11 @@ def rawSigned : Expr → Bool
   | _ => true
 
 mutual
-/-- the shapes `parseUnary` and `parseSelector` build (sign folding, path merging) and the two places where the
-spelling of an identifier decides the production (`[OFFSET(…)]`) -/
+/-- the shapes `parseUnary` and `parseSelector` build (sign folding, path merging) and the place where the
+spelling of an identifier decides the production (`[OFFSET(…)]`: the word in front of the `(` reads as its keyword).
+A plain subscript `[i]` carries no condition: the word OFFSET / ORDINAL / SAFE_OFFSET / SAFE_ORDINAL starts a keyword
+subscript only when `(` follows it directly, and the yield of an expression never starts with an identifier followed
+by `(` (`yield_not_call`). -/
 def nf : Expr → Bool
   | .int (some _) raw | .float (some _) raw => unsignedRaw? raw == some true
   | .path ns => decide (2 ≤ ns.length)
@@ -245,7 +257,7 @@ def nf : Expr → Bool
   | .inList _ e first more => nf e && nf first && nfs more
   | .inUnnest _ e a => nf e && nf a
   | .sel e _ => nf e && !isIdentOrPath e
-  | .index e none i => nf e && nf i && !startsPosKw (yield i)
+  | .index e none i => nf e && nf i
   | .index e (some (k, spelled)) i => nf e && nf i && posKwName spelled == some k
   | _ => true
 def nfs : Exprs → Bool
